@@ -173,7 +173,11 @@ impl SymmetricState {
         ck: [u8; MAXHASHLEN],
         has_key: bool,
     ) -> Self {
-        SymmetricState { cipherstate, hasher, inner: SymmetricStateData { h, ck, has_key } }
+        SymmetricState {
+            cipherstate,
+            hasher,
+            inner: SymmetricStateData { h, ck, has_key, ..SymmetricStateData::default() },
+        }
     }
 
     pub(crate) fn verif_parts(&self) -> ([u8; MAXHASHLEN], [u8; MAXHASHLEN], bool, u64, bool) {
